@@ -556,7 +556,11 @@ def eval_comprehension(ex, node: Any, st: State, kind: str) -> List[Tuple[State,
             s.assume(M.rcls(R) == ex.ct.id("list"))
             out.append((s, T(R, "list")))
             continue
-        out += comp_symbolic(ex, node, gen, dom, s, kind)
+        for s2, r2 in comp_symbolic(ex, node, gen, dom, s, kind):
+            if kind == "list" and isinstance(r2, T) and r2.hint == "list":
+                # a list comprehension yields a fresh list object: a local cell (it may be sorted / appended to later)
+                r2 = ex.new_cell(s2, ListC(r2.z))
+            out.append((s2, r2))
     return out
 
 
